@@ -139,6 +139,9 @@ pub struct VAsset {
     /// hard cap on calls: past it every call fails (hang detector); 0 = none
     pub call_cap: usize,
     pub cap_hit: bool,
+    /// end of data is reported as Ok(0) (what the LoadableAsset doc asks for, what files do) instead
+    /// of Err(UnexpectedEof) (what BufferCursor does)
+    pub eof_zero: bool,
 }
 
 impl VAsset {
@@ -161,10 +164,15 @@ impl VAsset {
             calls: 0,
             call_cap: 0,
             cap_hit: false,
+            eof_zero: false,
         }
     }
     pub fn chunked(mut self, n: usize) -> VAsset {
         self.chunk = n;
+        self
+    }
+    pub fn eof_as_zero(mut self, on: bool) -> VAsset {
+        self.eof_zero = on;
         self
     }
 }
@@ -184,7 +192,7 @@ impl LoadableAsset for VAsset {
             _ => {}
         }
         if self.pos >= self.data.len() {
-            return Err(IoError::UnexpectedEof);
+            return if self.eof_zero { Ok(0) } else { Err(IoError::UnexpectedEof) };
         }
         let mut n = buf.len().min(self.data.len() - self.pos);
         if self.chunk != 0 {
